@@ -57,6 +57,8 @@ def scan(text, allow_any_directive=False):
                 if d == "\\":
                     if i < n and chars[i][0] != "\n":
                         out.append(chars[i])
+                        if chars[i][0].isspace():
+                            lit_ws_lines.add(chars[i][1])  # an escaped blank is still a blank inside the literal
                         i += 1
                     else:
                         return None
